@@ -9,8 +9,18 @@
 //!   {"id":.., "text": <text of module Doc>, "mods": {<name>: <text>}, "cls": <unresolved class>,
 //!    "exporters": [<module names that export cls>],
 //!    "init": {<name>: <text>}?, "hist": [{<name>: <text>}..]? , ..any other fields are copied..}
-//! With "init"/"hist" the server is started on `init`, every element of `hist` is one
-//! `ServerState::update` batch, and a last batch brings every module to `text`/`mods`.
+//! With "init"/"hist" the server is started on `init` and every element of `hist` is one call of the
+//! server's workspace interface:
+//!   {<name>: <text>, ..}                                  one `ServerState::update` batch (older case files)
+//!   {"op": "update", "files": {<name>: <text>, ..}}      the same
+//!   {"op": "remove", "mods": [<name>, ..]}               `ServerState::remove` (files deleted)
+//!   {"op": "rename", "pairs": [[<old>, <new>], ..]}      `ServerState::rename_module`
+//! `text`/`mods` are the LIVE workspace the history ends in (spec/EditsHist.tla: Replay): a module that was
+//! removed or renamed away is not in `mods`.  Modules of `mods` whose text the server does not hold are
+//! brought there by a last update batch (older case files); the proposals are requested from that running
+//! server, and every proposal is judged on a FRESH server started from the live workspace with the edited
+//! document (`analyze`), never on the running server's own diagnostics.  `srv_live` records which modules
+//! the running server holds at the end (drift only).
 use crate::util::{arg, guarded, silence_panics};
 use samlang_ast::{Location, Position};
 use samlang_errors::ErrorDetail;
@@ -248,6 +258,40 @@ impl Server {
     let ups: Vec<(ModuleReference, String)> = batch.iter().map(|(n, t)| (self.m(n), t.clone())).collect();
     self.state.update(ups);
   }
+  fn remove(&mut self, names: &[String]) {
+    let ms: Vec<ModuleReference> = names.iter().map(|n| self.m(n)).collect();
+    self.state.remove(&ms);
+  }
+  fn rename(&mut self, pairs: &[(String, String)]) {
+    let ps: Vec<(ModuleReference, ModuleReference)> = pairs.iter().map(|(a, b)| (self.m(a), self.m(b))).collect();
+    self.state.rename_module(ps);
+  }
+  /// one element of a case's "hist"
+  fn step(&mut self, b: &Value) {
+    match b.get("op").and_then(|o| o.as_str()) {
+      None => self.update(&texts_of(b)),
+      Some("update") => self.update(&texts_of(&b["files"])),
+      Some("remove") => {
+        let names: Vec<String> = b["mods"].as_array().into_iter().flatten().filter_map(|x| x.as_str().map(|s| s.to_string())).collect();
+        self.remove(&names);
+      }
+      Some("rename") => {
+        let pairs: Vec<(String, String)> = b["pairs"]
+          .as_array()
+          .into_iter()
+          .flatten()
+          .filter_map(|p| Some((p.get(0)?.as_str()?.to_string(), p.get(1)?.as_str()?.to_string())))
+          .collect();
+        self.rename(&pairs);
+      }
+      Some(other) => panic!("unknown history operation {other}"),
+    }
+  }
+  fn live(&self) -> Vec<String> {
+    let mut v: Vec<String> = self.state.string_sources.keys().map(|m| m.pretty_print(&self.state.heap)).collect();
+    v.sort();
+    v
+  }
 }
 
 pub fn run(args: &[String]) {
@@ -268,12 +312,16 @@ pub fn run(args: &[String]) {
     let mods = texts_of(&case["mods"]);
     let cls = case["cls"].as_str().unwrap().to_string();
     let mut base = json!({"id": id, "doc_mod": DOC, "cls": cls, "exporters": case["exporters"], "text": doc});
-    for k in ["layout", "src", "pred", "hist_len"] {
+    for k in ["layout", "src", "pred", "hist_len", "hinit", "hops", "cand_mods"] {
       if let Some(v) = case.get(k) {
         base[k] = v.clone();
       }
     }
+    let srv_live = std::cell::RefCell::new(Value::Null);
     let emit = |f: &mut std::io::BufWriter<std::fs::File>, mut rec: Value, n_records: &mut usize| {
+      if !srv_live.borrow().is_null() {
+        rec["srv_live"] = srv_live.borrow().clone();
+      }
       for (k, v) in base.as_object().unwrap() {
         if rec.get(k).is_none() {
           rec[k] = v.clone();
@@ -290,7 +338,7 @@ pub fn run(args: &[String]) {
         let mut srv = Server::start(&texts_of(&case["init"]));
         let mut steps = 0usize;
         for b in case["hist"].as_array().into_iter().flatten() {
-          srv.update(&texts_of(b));
+          srv.step(b);
           steps += 1;
         }
         let cur: BTreeMap<String, String> =
@@ -315,6 +363,7 @@ pub fn run(args: &[String]) {
       }
     };
     n_updates += steps;
+    *srv_live.borrow_mut() = json!(srv.live());
     let d = srv.m(DOC);
     let before = match analyze(&doc, &mods) {
       Ok(a) => a,
